@@ -24,6 +24,9 @@ FUEL = 400_000
 # single-annotator strategy"); the cheap ones are over-represented
 INNER_LIGHT = ["CoreSet", "RandomSampling", "UncertaintySampling:entropy", "UncertaintySampling:margin_sampling", "ProbabilisticAL", "EpistemicUncertaintySampling", "Falcun", "QueryByCommittee:vote_entropy", "QueryByCommittee:KL_divergence", "ContrastiveAL"]
 INNER_ALL = [k for k, e in R.ENTRIES.items() if e["task"] == "clf" and not e["flags"].get("wrap") and not e["flags"].get("kernel_X") and not e["flags"].get("fragile")]
+# wrapped strategies used when two calls overlap on one object: their own query keeps nothing per call on the object
+# besides random_state_ (checked by reading the code), so the per-call contract of the wrapper is well defined
+OVERLAP_INNER = ["RandomSampling", "UncertaintySampling:entropy", "UncertaintySampling:margin_sampling", "CoreSet", "ProbabilisticAL", "QueryByCommittee:vote_entropy", "ContrastiveAL", "Falcun"]
 INNER = INNER_LIGHT * 3 + [k for k in INNER_ALL if not R.ENTRIES[k]["flags"].get("heavy")] * 2 + INNER_ALL
 
 
@@ -78,7 +81,7 @@ class C07Check(Check):
     sim_time_unit = "crowd-labelling cycles"
     components = {
         "real": ["skactiveml.pool.multiannotator.SingleAnnotatorWrapper (around real single-annotator strategies and models)", "skactiveml.pool.multiannotator.IntervalEstimationThreshold", "MultiAnnotatorPoolQueryStrategy argument handling in skactiveml.base"],
-        "stub": ["crowd of annotators (scripted labels; off-line / blocked / not answering per schedule)"],
+        "stub": ["crowd of annotators (scripted labels; off-line / blocked / not answering per schedule)", "thread scheduler for overlapping calls (real threads, one baton, seeded pre-emption at line events inside skactiveml)"],
     }
     rule = (
         "run = one strategy object driven through several crowd-labelling cycles on a label matrix that fills up; per cycle the scheduler "
@@ -86,17 +89,46 @@ class C07Check(Check):
         "are expressed (None / index array / boolean matrix / feature rows), the batch size and the annotators-per-sample request. Oracle per "
         "call: returns within fuel, (k, 2) distinct available pairs with k = min(batch_size, available pairs), utilities of the documented "
         "shape that are NaN at unavailable and already chosen pairs, annotators-per-sample respected in its weakest unambiguous form. "
+        "In a share of the runs a second caller thread is inside query on the same strategy object with different arguments while the first "
+        "one is pre-empted at seeded line counts; each of the two calls is judged by the same oracle against its own arguments. "
         "Non-trivial: at least one availability fault landed and some sample had fewer available annotators than requested or a row "
         "without any available annotator existed. Distinct by (subject, argument representation, fault kinds, probes)."
     )
-    fault_kinds = ["annotator_offline", "pair_unavailable", "no_answer"]
-    probes_expected = ["row_without_available_annotator", "fewer_annotators_than_requested", "batch_clipped", "repr_none_none", "repr_none_idx", "repr_none_bool", "repr_idx_bool", "repr_rows", "multi_cycle", "utilities_checked", "napa_array", "napa_array_shorter_than_batch", "mask_not_bool_dtype", "labeled_sample_still_candidate", "string_class_labels"]
+    fault_kinds = ["annotator_offline", "pair_unavailable", "no_answer", "thread_preemption"]
+    probes_expected = ["row_without_available_annotator", "fewer_annotators_than_requested", "batch_clipped", "repr_none_none", "repr_none_idx", "repr_none_bool", "repr_idx_bool", "repr_rows", "multi_cycle", "utilities_checked", "napa_array", "napa_array_shorter_than_batch", "mask_not_bool_dtype", "labeled_sample_still_candidate", "string_class_labels", "overlapping_calls"]
     assumptions = [
         "availability is what the candidates/annotators arguments say (documented table); with both None: pairs whose label is missing",
         "termination is judged with a deterministic fuel of %d line events inside skactiveml per query" % FUEL,
+        "overlapping calls on one object are only generated for wrapped strategies whose own query keeps no per-call state on the object (list OVERLAP_INNER); they are judged per call, never against a sequential result",
         "the annotators-per-sample clause (integer or per-rank array request) is only judged where the selected samples offer enough pairs at the requested numbers, i.e. where the library does not have to raise the numbers to fill the batch",
     ]
     tiers = {"quick": {"runs": 4000, "wall_cap": 600, "chunk": 15}, "thorough": {"runs": 80000, "wall_cap": 3300, "chunk": 30}}
+
+    @staticmethod
+    def _gen_cycle(g, f, n, na, subject):
+        offline = [a for a in range(na) if f.chance(f.pick([0.0, 0.2, 0.5]))]
+        blocked = [[i, a] for i in range(n) for a in range(na) if f.chance(f.pick([0.0, 0.1, 0.4]))]
+        cand = g.pick(["none", "none", "idx", "rows"])
+        if cand == "rows" and subject.startswith("SAW:") and R.ENTRIES[subject[4:]]["flags"].get("rows") is False:
+            cand = "idx"  # strategies that need the position of the candidates in X refuse feature rows by documentation
+        avail = g.pick(["none", "idx", "bool", "bool"])
+        cyc = {
+            "offline": offline,
+            "blocked": blocked,
+            "cand": cand,
+            "avail": avail,
+            "cand_idx": sorted(g.sample(range(n), g.randint(1, n))) if cand != "none" else None,
+            "batch_size": g.pick([1, 1, 2, 3, n, n * na + 2]),
+            "napa": g.pick([1, 1, 2, 3]) if g.chance(0.8) else [g.pick([1, 2, 3]) for _ in range(g.pick([1, 2, 3]))],
+            "no_answer": [f.chance(0.15) for _ in range(12)],
+            "ru": g.chance(0.7),
+            # annotator performance estimates handed to the wrapper (any real numbers, also negative ones)
+            "A_perf": ([round(g.uniform(-3, 3), 2) for _ in range(na)] if g.chance(0.5) else [[round(g.uniform(-3, 3), 2) for _ in range(na)] for _ in range(n)]) if g.chance(0.3) else None,
+            # an index array of annotators may legally repeat an index
+            "dup_annot_idx": g.chance(0.2),
+            "mask_dtype": g.pick(["bool", "bool", "int", "float"]),
+        }
+        return cyc
 
     def generate(self, rng: SimRng):
         g = rng.fork("workload")
@@ -113,29 +145,16 @@ class C07Check(Check):
         subject = "IntervalEstimationThreshold" if g.chance(0.15) else "SAW:" + g.pick(INNER)
         cycles = []
         for _ in range(g.pick([1, 2, 3, 5, 8])):
-            offline = [a for a in range(na) if f.chance(f.pick([0.0, 0.2, 0.5]))]
-            blocked = [[i, a] for i in range(n) for a in range(na) if f.chance(f.pick([0.0, 0.1, 0.4]))]
-            cand = g.pick(["none", "none", "idx", "rows"])
-            if cand == "rows" and subject.startswith("SAW:") and R.ENTRIES[subject[4:]]["flags"].get("rows") is False:
-                cand = "idx"  # strategies that need the position of the candidates in X refuse feature rows by documentation
-            avail = g.pick(["none", "idx", "bool", "bool"])
-            cyc = {
-                "offline": offline,
-                "blocked": blocked,
-                "cand": cand,
-                "avail": avail,
-                "cand_idx": sorted(g.sample(range(n), g.randint(1, n))) if cand != "none" else None,
-                "batch_size": g.pick([1, 1, 2, 3, n, n * na + 2]),
-                "napa": g.pick([1, 1, 2, 3]) if g.chance(0.8) else [g.pick([1, 2, 3]) for _ in range(g.pick([1, 2, 3]))],
-                "no_answer": [f.chance(0.15) for _ in range(12)],
-                "ru": g.chance(0.7),
-                # annotator performance estimates handed to the wrapper (any real numbers, also negative ones)
-                "A_perf": ([round(g.uniform(-3, 3), 2) for _ in range(na)] if g.chance(0.5) else [[round(g.uniform(-3, 3), 2) for _ in range(na)] for _ in range(n)]) if g.chance(0.3) else None,
-                # an index array of annotators may legally repeat an index
-                "dup_annot_idx": g.chance(0.2),
-                "mask_dtype": g.pick(["bool", "bool", "int", "float"]),
+            cycles.append(self._gen_cycle(g, f, n, na, subject))
+        # two caller threads inside query on the same strategy object (the pre-emption points are task-local line counts)
+        o = rng.fork("overlap")
+        if subject.startswith("SAW:") and subject[4:] in OVERLAP_INNER and o.chance(0.5):
+            j = o.randrange(0, len(cycles))
+            cycles[j]["overlap"] = {
+                "cyc": self._gen_cycle(o, o, n, na, subject),
+                "first": o.pick([0, 1]),
+                "switches": {str(r): sorted({int(round(10 ** o.uniform(0.3, 3.6))) for _ in range(o.pick([0, 1, 1, 2, 4]))}) for r in (0, 1)},
             }
-            cycles.append(cyc)
         return {"engine": "crowdsim", "subject": subject, "model": "pwc", "seed": g.randrange(0, 1000), "X": X.tolist(), "y0": y0, "truth": truth, "cycles": cycles, "str_labels": rng.fork("str").chance(0.15), "y_aggregate": g.pick([None, None, "mv3", "first"]), "iet": g.pick([None, None, {"epsilon": 0.5, "alpha": 0.5}, {"epsilon": 1.0, "alpha": 0.01}, {"epsilon": 0.0, "alpha": 0.2}])}
 
     # ------------------------------------------------------------------
@@ -209,7 +228,7 @@ class C07Check(Check):
         n, na = y.shape
         np.random.seed(sc.get("run_seed", 0) % (2**32))
         done_cycles = 0
-        for t, cyc in enumerate(sc["cycles"]):
+        def prep(cyc):
             cand_arg, ann_arg, A, rows = self.availability(cyc, y, n, na)
             if cyc["avail"] == "bool" and cyc.get("mask_dtype", "bool") != "bool" and ann_arg is not None:
                 # the availability mask as 0/1 integers or floats (array-like of truth values)
@@ -223,7 +242,7 @@ class C07Check(Check):
                 ctx.fault("pair_unavailable", len(cyc["blocked"]))
             n_avail = int(A.sum())
             if n_avail == 0:
-                continue  # nothing to query: the library documents no behaviour for an empty candidate set
+                return None  # nothing to query: the library documents no behaviour for an empty candidate set
             if (A.sum(axis=1) == 0).any():
                 ctx.probe("row_without_available_annotator")
             napa = cyc["napa"]
@@ -262,38 +281,44 @@ class C07Check(Check):
             call["batch_size"] = bs
             want_ut = bool(cyc.get("ru", True))
             call["return_utilities"] = want_ut
-            try:
-                with Fuel(FUEL):
-                    res = qs.query(X, enc_matrix(y, bool(sc.get("str_labels"))), **call)
-                idx, ut = res if want_ut else (res, None)
-            except SimFuelExhausted:
-                ctx.violate("query-does-not-terminate", subj, f"cycle {t}: query used more than {FUEL} line events (batch {bs}, {n_avail} available pairs, availability rows {A.sum(axis=1).tolist()}, representation {rep})", cond)
-                break
-            except Exception as e:
-                ctx.violate("query-raises", subj, f"cycle {t}: {type(e).__name__}: {str(e)[:140]} (representation candidates={cyc['cand']}, annotators={cyc['avail']}, batch {bs}, {n_avail} available pairs)", dict(cond, exc=type(e).__name__))
-                break
+            return dict(A=A, rows=rows, cond=cond, bs=bs, n_avail=n_avail, rep=rep, want=want, napa=napa, want_ut=want_ut, call=call)
+
+        def judge(t, cyc, P, outcome, tag=""):
+            """The per-call oracle; returns the list of pairs or None after a violation."""
+            A, rows, cond, bs, n_avail, rep, want, napa, want_ut = (P[k] for k in ("A", "rows", "cond", "bs", "n_avail", "rep", "want", "napa", "want_ut"))
+            if tag:
+                cond = dict(cond, overlapping_calls=True)
+            kind, val = outcome
+            if kind == "fuel":
+                ctx.violate("query-does-not-terminate", subj, f"cycle {t}{tag}: query used more than {FUEL} line events (batch {bs}, {n_avail} available pairs, availability rows {A.sum(axis=1).tolist()}, representation {rep})", cond)
+                return None
+            if kind == "exc":
+                e = val
+                ctx.violate("query-raises", subj, f"cycle {t}{tag}: {type(e).__name__}: {str(e)[:140]} (representation candidates={cyc['cand']}, annotators={cyc['avail']}, batch {bs}, {n_avail} available pairs)", dict(cond, exc=type(e).__name__))
+                return None
+            idx, ut = val if want_ut else (val, None)
             idx = np.asarray(idx)
             ctx.log.add("query", idx)
             if idx.ndim != 2 or idx.shape[1] != 2 or idx.dtype.kind not in "iu":
-                ctx.violate("result-malformed", subj, f"cycle {t}: result of shape {idx.shape} dtype {idx.dtype}, (k, 2) integers expected", cond)
-                break
+                ctx.violate("result-malformed", subj, f"cycle {t}{tag}: result of shape {idx.shape} dtype {idx.dtype}, (k, 2) integers expected", cond)
+                return None
             # indices refer to X (None / index candidates) or to the candidate rows
             row_of = {int(s): r for r, s in enumerate(rows)} if cyc["cand"] != "rows" else {r: r for r in range(len(rows))}
             pairs = [(int(i), int(a)) for i, a in idx.tolist()]
             if len(set(pairs)) != len(pairs):
-                ctx.violate("duplicate-pair", subj, f"cycle {t}: pairs {pairs} contain a pair twice", cond)
-                break
+                ctx.violate("duplicate-pair", subj, f"cycle {t}{tag}: pairs {pairs} contain a pair twice", cond)
+                return None
             bad = [p for p in pairs if p[0] not in row_of or not (0 <= p[1] < na) or not A[row_of[p[0]], p[1]]]
             if bad:
-                ctx.violate("unavailable-pair-selected", subj, f"cycle {t}: pairs {bad} are not available under candidates={cyc['cand']}, annotators={cyc['avail']} (available per row {A.sum(axis=1).tolist()})", cond)
-                break
+                ctx.violate("unavailable-pair-selected", subj, f"cycle {t}{tag}: pairs {bad} are not available under candidates={cyc['cand']}, annotators={cyc['avail']} (available per row {A.sum(axis=1).tolist()})", cond)
+                return None
             n_rows_u0 = len(rows) if cyc["cand"] == "rows" else n
             if ut is not None and np.asarray(ut).shape[1:] != (n_rows_u0, na):
-                ctx.violate("utilities-shape", subj, f"cycle {t}: utilities of shape {np.asarray(ut).shape}, expected (k, {n_rows_u0}, {na})", cond)
-                break
+                ctx.violate("utilities-shape", subj, f"cycle {t}{tag}: utilities of shape {np.asarray(ut).shape}, expected (k, {n_rows_u0}, {na})", cond)
+                return None
             if len(pairs) != want:
-                ctx.violate("wrong-count", subj, f"cycle {t}: {len(pairs)} pairs returned, min(batch_size={bs}, available pairs={n_avail})={want} expected (available per row {A.sum(axis=1).tolist()})", cond)
-                break
+                ctx.violate("wrong-count", subj, f"cycle {t}{tag}: {len(pairs)} pairs returned, min(batch_size={bs}, available pairs={n_avail})={want} expected (available per row {A.sum(axis=1).tolist()})", cond)
+                return None
             # ---- utilities
             if ut is None:
                 ut = np.full((len(pairs), len(rows) if cyc["cand"] == "rows" else n, na), 0.0)
@@ -304,8 +329,8 @@ class C07Check(Check):
             n_rows_u = len(rows) if cyc["cand"] == "rows" else n
             ctx.probe("utilities_checked")
             if ut.shape != (len(pairs), n_rows_u, na):
-                ctx.violate("utilities-shape", subj, f"cycle {t}: utilities of shape {ut.shape}, expected {(len(pairs), n_rows_u, na)}", cond)
-                break
+                ctx.violate("utilities-shape", subj, f"cycle {t}{tag}: utilities of shape {ut.shape}, expected {(len(pairs), n_rows_u, na)}", cond)
+                return None
             full = np.zeros((n_rows_u, na), dtype=bool)
             if cyc["cand"] == "rows":
                 full[:, :] = A
@@ -316,23 +341,23 @@ class C07Check(Check):
             for k, p in enumerate([] if skip_ut else pairs):
                 mustnan = ~full
                 if mustnan.any() and not np.isnan(ut[k][mustnan]).all():
-                    ctx.violate("utilities-not-nan-at-unavailable", subj, f"cycle {t}: step {k}: utilities are numbers at unavailable pairs", cond)
+                    ctx.violate("utilities-not-nan-at-unavailable", subj, f"cycle {t}{tag}: step {k}: utilities are numbers at unavailable pairs", cond)
                     ok = False
                     break
                 for q in chosen:
                     if not np.isnan(ut[k][q[0], q[1]]):
-                        ctx.violate("utilities-not-nan-at-chosen", subj, f"cycle {t}: step {k}: utility of the pair {q} chosen earlier is {ut[k][q[0], q[1]]}", cond)
+                        ctx.violate("utilities-not-nan-at-chosen", subj, f"cycle {t}{tag}: step {k}: utility of the pair {q} chosen earlier is {ut[k][q[0], q[1]]}", cond)
                         ok = False
                         break
                 if not ok:
                     break
                 if np.isnan(ut[k][p[0], p[1]]):
-                    ctx.violate("utilities-nan-at-selected", subj, f"cycle {t}: step {k}: the selected pair {p} has NaN utility", cond)
+                    ctx.violate("utilities-nan-at-selected", subj, f"cycle {t}{tag}: step {k}: the selected pair {p} has NaN utility", cond)
                     ok = False
                     break
                 chosen.append(p)
             if not ok:
-                break
+                return None
             # ---- annotators per sample (weakest unambiguous form)
             if subj == "SingleAnnotatorWrapper":
                 # documented: an array gives the preferred number for the i-th sample of the inner strategy's ranking,
@@ -349,11 +374,66 @@ class C07Check(Check):
                     for s in order[:-1]:
                         got = sum(1 for p in pairs if p[0] == s)
                         if got != min(pref[s], cap[s]):
-                            ctx.violate("annotators-per-sample", subj, f"cycle {t}: sample {s} received {got} annotators, min(requested={pref[s]}, available={cap[s]}) expected (n_annotators_per_sample={napa}); pairs {pairs}", cond)
+                            ctx.violate("annotators-per-sample", subj, f"cycle {t}{tag}: sample {s} received {got} annotators, min(requested={pref[s]}, available={cap[s]}) expected (n_annotators_per_sample={napa}); pairs {pairs}", cond)
                             ok = False
                             break
             if not ok:
+                return None
+            return pairs
+
+        def run_call(call, yenc):
+            try:
+                with Fuel(FUEL):
+                    return ("ok", qs.query(X, yenc, **call))
+            except SimFuelExhausted:
+                return ("fuel", None)
+            except Exception as e:
+                return ("exc", e)
+
+        def run_overlapping(calls, yenc, ov):
+            from .parsim import SIM, ThreadSched
+
+            SIM.ctx, SIM.trace, SIM.steps = ctx, [], 0
+            funcs = [(lambda c=c: qs.query(X, yenc, **c)) for c in calls]
+            order = [0, 1] if ov.get("first", 0) == 0 else [1, 0]
+            sched = ThreadSched(funcs, order, ov.get("switches") or {}, fuel=FUEL)
+            try:
+                res = sched.run()
+            finally:
+                SIM.ctx = None
+            ctx.log.add("interleaving", [list(x) for x in SIM.trace])
+            outs = []
+            for i in range(len(calls)):
+                kind, val = res.get(i, ("err", RuntimeError("no result")))
+                if kind == "ok":
+                    outs.append(("ok", val))
+                elif isinstance(val, SimFuelExhausted):
+                    outs.append(("fuel", None))
+                else:
+                    outs.append(("exc", val))
+            return outs
+
+        for t, cyc in enumerate(sc["cycles"]):
+            P = prep(cyc)
+            if P is None:
+                continue
+            ov = cyc.get("overlap") if subj == "SingleAnnotatorWrapper" else None
+            P2 = prep(ov["cyc"]) if ov else None
+            yenc = enc_matrix(y, bool(sc.get("str_labels")))
+            if P2 is None:
+                outcome = run_call(P["call"], yenc)
+                pairs = judge(t, cyc, P, outcome)
+            else:
+                # two caller threads share the strategy object; the scheduler decides who runs (seeded pre-emption
+                # at task-local line counts); every call is judged against its OWN arguments
+                ctx.probe("overlapping_calls")
+                outs = run_overlapping([P["call"], P2["call"]], yenc, ov)
+                pairs = judge(t, cyc, P, outs[0], " (overlapping call 0)")
+                if pairs is not None and judge(t, ov["cyc"], P2, outs[1], " (overlapping call 1)") is None:
+                    pairs = None
+            if pairs is None:
                 break
+            rows = P["rows"]
             # ---- the crowd answers (or not)
             for k, p in enumerate(pairs):
                 s = p[0] if cyc["cand"] != "rows" else int(rows[p[0]])
@@ -374,6 +454,25 @@ class C07Check(Check):
 
     def shrink(self, sc):
         cyc = sc["cycles"]
+        for j, cy in enumerate(cyc):
+            ov = cy.get("overlap")
+            if not ov:
+                continue
+            c = copy.deepcopy(sc)
+            del c["cycles"][j]["overlap"]
+            yield c
+            c = copy.deepcopy(sc)  # the overlapping call alone, sequentially
+            c["cycles"] = [ov["cyc"]]
+            yield c
+            for r, pts in ov["switches"].items():
+                for k in range(len(pts)):
+                    c = copy.deepcopy(sc)
+                    del c["cycles"][j]["overlap"]["switches"][r][k]
+                    yield c
+            if len(cyc) > 1:
+                c = copy.deepcopy(sc)
+                c["cycles"] = [cy]
+                yield c
         for keep in (len(cyc) // 2, len(cyc) - 1):
             if 1 <= keep < len(cyc):
                 c = copy.deepcopy(sc)
